@@ -282,6 +282,26 @@ func runC18(c *Ctx) {
 				R.Check(perm, "R18.4", fn+"#invalid-body", rp.Ret.Pos(), fn, "an invalid body is final for the provider (Permanent)", "an invalid body is retried: it must be final for the provider")
 			}
 		}
+		// no other outcome of a completely received answer that may be a client error is retried
+		for _, rp := range rps {
+			if rp.Ret.Block().Comment == "recover" || rp.Results[1].IsConst("nil") || strings.Contains(rp.Results[1].String(), "backoff.Permanent(") {
+				continue
+			}
+			received, outside := 0, false
+			for _, a := range rp.Atoms {
+				nn := a.Norm()
+				s := nn.Cond.String()
+				if nn.Sign && (strings.HasSuffix(s, ".Do(param:client, param:req)#1 == nil)") || strings.Contains(s, "io.ReadAll(") && strings.HasSuffix(s, "#1 == nil)")) {
+					received++
+				}
+				if !nn.Sign && (strings.Contains(s, ".StatusCode >= 400") || strings.Contains(s, ".StatusCode < 500")) {
+					outside = true
+				}
+			}
+			if received >= 2 && !outside {
+				R.FailPath("R18.4", fn+"#client-error-retried", rp.Ret.Pos(), fn, "an answer that was received completely and may carry a 4xx status is reported with a retryable error ("+rp.Results[1].String()+"): client errors must be final for the provider", rp.Path.String())
+			}
+		}
 		R.Floor("R18.4:4xx-paths", n4xx, 1)
 		R.Floor("R18.4:invalid-body-paths", nbad, 1)
 		// the 4xx test really is 400 <= status < 500
